@@ -5,5 +5,8 @@ lean/MjProof/Model/BadCheck.lean (refinement theorem in Props/C30.lean)."""
 MISC = "src/engine/engine_util_misc.c"
 KERNELS = [
     {"name": "mju_isBad", "file": MISC},
+    # the per-slot control clamp of mj_fwdActuation (clampVec -> mju_clip) runs BEFORE the bad-control scan: the Lean
+    # driver's `ctrlscan` op uses the generated kernel (listed by other checks too; duplicates are merged)
+    {"name": "mju_clip", "file": MISC},
 ]
 INLINE_FILES = [MISC]
